@@ -127,3 +127,38 @@ Theorem C06_total_file : forall fs cwd p al,
   exists d al', forall k, enough fs <= k -> read_entry_file fs cwd k p al = Done (d, al').
 Proof. exact read_entry_file_total. Qed.
 Print Assumptions C06_total_file.
+
+(* optimized=True (it reaches only an HDF5 ENTRY file): same outcome and same files opened as the plain
+   read; the components differ at most in how the file's own networks are put in *)
+Theorem C06_optimized_vs_plain : forall fs cwd fuel opt p al,
+  opt_rel (read_entry_file fs cwd fuel p al) (read_entry_file_opt fs cwd fuel opt p al).
+Proof. exact optimized_vs_plain. Qed.
+Print Assumptions C06_optimized_vs_plain.
+
+Theorem C06_optimized_terminates : forall fs cwd opt p al,
+  read_entry_file_opt fs cwd (enough fs) opt p al <> OutOfFuel /\
+  forall k, enough fs <= k ->
+    read_entry_file_opt fs cwd k opt p al = read_entry_file_opt fs cwd (enough fs) opt p al.
+Proof. exact read_entry_file_opt_terminates. Qed.
+Print Assumptions C06_optimized_terminates.
+
+(* both flag values return the same union - a permutation, only the position of the own network differs -
+   when no component met through the includes carries the id of one of the file's own networks *)
+Theorem C06_optimized_same_union : forall fs cwd fuel p al nets x extra al',
+  lookup p (fs_files fs) = Some (FH5 nets (Some x)) -> entry_is_h5 p = true ->
+  read_entry_string fs cwd fuel x (Some (dirname p)) (mark p al) = Done (extra, al') ->
+  read_entry_file fs cwd fuel p al = Done ({| d_comps := add_all (d_comps extra) nets; d_incs := [] |}, al') /\
+  read_entry_file_opt fs cwd fuel true p al = Done ({| d_comps := (d_comps extra ++ nets)%list; d_incs := [] |}, al') /\
+  (keys_unique (d_comps extra) -> (forall e, In e (d_comps extra) -> keyed e nets = false) ->
+   Permutation.Permutation (add_all (d_comps extra) nets) (d_comps extra ++ nets)).
+Proof. exact optimized_same_union. Qed.
+Print Assumptions C06_optimized_same_union.
+
+(* ... and refuted otherwise (known finding C06:id-twice:optimized-entry-own-network): the optimized branch
+   appends the own network without the id test *)
+Theorem C06_optimized_id_once_refuted : exists d d' al,
+  read_entry_file fs_optdup [] (enough fs_optdup) ["n.nml.h5"%string] [] = Done (d, al) /\
+  read_entry_file_opt fs_optdup [] (enough fs_optdup) true ["n.nml.h5"%string] [] = Done (d', al) /\
+  map c_tag (d_comps d) = [1%Z] /\ map c_tag (d_comps d') = [2%Z; 1%Z] /\ ~ keys_unique (d_comps d').
+Proof. exact optimized_id_twice_witness. Qed.
+Print Assumptions C06_optimized_id_once_refuted.
